@@ -301,6 +301,58 @@ fn do_list(r: &mut Run, op: &str, xs: &[SingleObjective]) {
     r.emit(a, reply);
 }
 
+/// `Vec::dedup` (PartialEq) on the list as given (`raw`) or after `Vec::sort` (`sorted`)
+fn do_dedup(r: &mut Run, f: &str, xs: &[SingleObjective]) {
+    let fl: Vec<f64> = xs.iter().map(|o| o.value()).collect();
+    let a = act("dedup", f, json!(NOVAL), json!(NOVAL), NOC, NOC, r.enc_list(&fl), json!([]));
+    let mut v = xs.to_vec();
+    let sorted = f == "sorted";
+    let reply = match caught(move || {
+        if sorted {
+            v.sort();
+        }
+        v.dedup();
+        v
+    }) {
+        Ok(v) => {
+            let fl: Vec<f64> = v.iter().map(|o| o.value()).collect();
+            res("list", json!(NOVAL), NOC, r.enc_list(&fl))
+        }
+        Err(_) => res("panic", json!(NOVAL), NOC, json!([])),
+    };
+    r.emit(a, reply);
+}
+
+/// `contains` / `position` (PartialEq) and `binary_search` (Ord) of `x` in `xs`.  The list handed
+/// to `binary_search` is sorted by the harness on the raw floats (its contract), not by the code
+/// under test.  Indices are logged 1-based.
+fn do_search(r: &mut Run, op: &str, xs: &[SingleObjective], x: SingleObjective) {
+    let mut xs = xs.to_vec();
+    if op == "bsearch" {
+        xs.sort_by(|p, q| p.value().partial_cmp(&q.value()).expect("legal objective values"));
+    }
+    let fl: Vec<f64> = xs.iter().map(|o| o.value()).collect();
+    let a = act(op, "-", r.enc(x.value()), json!(NOVAL), NOC, NOC, r.enc_list(&fl), json!([]));
+    let reply = match op {
+        "contains" => match caught(|| xs.contains(&x)) {
+            Ok(found) => res("bool", b(found), NOC, json!([])),
+            Err(_) => res("panic", json!(NOVAL), NOC, json!([])),
+        },
+        "position" => match caught(|| xs.iter().position(|o| *o == x)) {
+            Ok(Some(i)) => res("idx", json!(i as i64 + 1), NOC, json!([])),
+            Ok(None) => res("none", json!(NOVAL), NOC, json!([])),
+            Err(_) => res("panic", json!(NOVAL), NOC, json!([])),
+        },
+        "bsearch" => match caught(|| xs.binary_search(&x)) {
+            Ok(Ok(i)) => res("found", r.enc(xs[i].value()), NOC, json!([])),
+            Ok(Err(i)) => res("insert", json!(i as i64), NOC, json!([])),
+            Err(_) => res("panic", json!(NOVAL), NOC, json!([])),
+        },
+        other => panic!("unknown search op {other}"),
+    };
+    r.emit(a, reply);
+}
+
 fn do_m_try_from(r: &mut Run, f: &str, xs: &[f64]) {
     let a = act("m_try_from", f, json!(NOVAL), json!(NOVAL), NOC, NOC, r.enc_list(xs), json!([]));
     let m = if f == "vec" { MultiObjective::try_from(xs.to_vec()) } else { MultiObjective::try_from(xs) };
@@ -391,6 +443,20 @@ fn replay_act(r: &mut Run, a: &Value) {
             match xs {
                 Some(xs) => do_list(r, op, &xs),
                 None => missing(r),
+            }
+        }
+        "dedup" => {
+            let xs: Option<Vec<SingleObjective>> = codes(&a["xs"]).into_iter().map(|c| r.find(c)).collect();
+            match xs {
+                Some(xs) => do_dedup(r, f, &xs),
+                None => missing(r),
+            }
+        }
+        "contains" | "position" | "bsearch" => {
+            let xs: Option<Vec<SingleObjective>> = codes(&a["xs"]).into_iter().map(|c| r.find(c)).collect();
+            match (xs, r.find(ca)) {
+                (Some(xs), Some(x)) => do_search(r, op, &xs, x),
+                _ => missing(r),
             }
         }
         "m_try_from" => {
@@ -507,6 +573,14 @@ fn random_run(r: &mut Run, rng: &mut ChaCha8Rng, size: usize) {
     let mut inputs: Vec<f64> = Vec::new();
     for _ in 0..size {
         inputs.push(if rng.gen_bool(0.5) { *g.choose(rng).unwrap() } else { random_float(rng) });
+        // now and then also a float 1 or 2 representable steps away from the one just taken
+        if rng.gen_bool(0.3) {
+            let d = *[-2, -1, 1, 2].choose(rng).unwrap();
+            let x = *inputs.last().unwrap();
+            if !x.is_nan() {
+                inputs.extend(ulps(x, d));
+            }
+        }
     }
     for &x in &inputs {
         do_try_from(r, x);
@@ -561,7 +635,12 @@ fn random_run(r: &mut Run, rng: &mut ChaCha8Rng, size: usize) {
         let n = rng.gen_range(0..=pool.len().min(8));
         let xs: Vec<SingleObjective> = (0..n).map(|_| *pool.choose(rng).unwrap()).collect();
         do_list(r, ["sort", "list_min", "list_max"].choose(rng).unwrap(), &xs);
+        do_dedup(r, if rng.gen_bool(0.5) { "raw" } else { "sorted" }, &xs);
+        if let Some(&x) = pool.choose(rng) {
+            do_search(r, ["contains", "position", "bsearch"].choose(rng).unwrap(), &xs, x);
+        }
     }
+    do_dedup(r, "sorted", &all);
     // multi-objective: vectors up to length 3 over a small value set (so that ties, domination and
     // trade-offs all occur), plus illegal components
     let mut dom: Vec<f64> = vec![0.0, -0.0, 1.0, f64::INFINITY];
@@ -596,6 +675,152 @@ fn random_run(r: &mut Run, rng: &mut ChaCha8Rng, size: usize) {
     }
 }
 
+// ------------------------------------------------------------------------------------------------
+// adjacent floats (mode rank): clusters of values 1 and 2 representable steps apart
+
+/// Position of a float on the line of all floats (-0.0 and +0.0 share position 0).
+fn key(x: f64) -> i64 {
+    let bits = x.to_bits();
+    let mag = (bits & 0x7fff_ffff_ffff_ffff) as i64;
+    if bits >> 63 == 0 {
+        mag
+    } else {
+        -mag
+    }
+}
+
+fn from_key(k: i64) -> f64 {
+    if k >= 0 {
+        f64::from_bits(k as u64)
+    } else {
+        -f64::from_bits(k.unsigned_abs())
+    }
+}
+
+/// The float `d` representable steps above (`d < 0`: below) `x`; `None` beyond the infinities.
+fn ulps(x: f64, d: i64) -> Option<f64> {
+    let y = from_key(key(x).checked_add(d)?);
+    if y.is_nan() {
+        None
+    } else {
+        Some(y)
+    }
+}
+
+/// Magnitudes around which neighbours are taken: zero, subnormals, the subnormal/normal border,
+/// tiny and huge normal values, several binades, binade borders (powers of two: the spacing
+/// changes there), around 1.0, the largest float.
+fn neighbour_bases() -> Vec<f64> {
+    vec![
+        0.0,
+        f64::from_bits(0x0008_0000_0000_0000), // a subnormal
+        f64::MIN_POSITIVE,
+        1e-300,
+        f64::EPSILON,
+        0.1,
+        0.5,
+        1.0,
+        1.5,
+        2.0,
+        3.0,
+        7.25,
+        123456.789,
+        1e10,
+        4503599627370496.0, // 2^52
+        9007199254740992.0, // 2^53
+        1e300,
+        f64::MAX,
+    ]
+}
+
+/// One run around magnitude `m`: the values m, m +- 1 step, m +- 2 steps and their negatives.
+/// Every ordered pair is compared (all eight forms within a sign, `cmp` / `eq` / one more across),
+/// and everything that rests on equality and order is asked about the whole cluster: min / max,
+/// sort, dedup, contains / position / binary search with and without the value being present,
+/// Pareto comparison of vectors whose components are neighbours.
+fn neighbour_run(r: &mut Run, rng: &mut ChaCha8Rng, m: f64, negative_vectors: bool) {
+    let mut inputs: Vec<f64> = vec![m, -m];
+    for d in -2..=2 {
+        inputs.extend(ulps(m, d));
+        inputs.extend(ulps(-m, d));
+    }
+    let mut seen: Vec<u64> = Vec::new();
+    inputs.retain(|x| {
+        let fresh = !seen.contains(&x.to_bits());
+        seen.push(x.to_bits());
+        fresh
+    });
+    inputs.shuffle(rng);
+    for &x in &inputs {
+        do_try_from(r, x); // beyond -MAX lies -inf: refused, and not part of the cluster
+    }
+    let pool: Vec<SingleObjective> = r.pool.clone();
+    for &x in &pool {
+        for &y in &pool {
+            if x.value().is_sign_negative() == y.value().is_sign_negative() {
+                for f in CMP_FORMS {
+                    do_cmp(r, f, x, y);
+                }
+            } else {
+                do_cmp(r, "cmp", x, y);
+                do_cmp(r, "eq", x, y);
+                do_cmp(r, CMP_FORMS.choose(rng).unwrap(), x, y);
+            }
+            if key(x.value()).checked_sub(key(y.value())).map_or(false, |d| d.unsigned_abs() <= 2) {
+                do_minmax(r, "min", x, y);
+                do_minmax(r, "max", x, y);
+            }
+        }
+    }
+    // lists: the whole cluster in random order, and every value twice in a row
+    let mut all = pool.clone();
+    all.shuffle(rng);
+    for op in ["sort", "list_min", "list_max"] {
+        do_list(r, op, &all);
+    }
+    do_dedup(r, "sorted", &all);
+    do_dedup(r, "raw", &all);
+    let mut twice: Vec<SingleObjective> = Vec::new();
+    let mut ordered = pool.clone();
+    ordered.sort_by(|p, q| p.value().total_cmp(&q.value()));
+    for &x in &ordered {
+        twice.push(x);
+        twice.push(x);
+    }
+    do_dedup(r, "raw", &twice);
+    twice.shuffle(rng);
+    do_dedup(r, "sorted", &twice);
+    // searching a value among its neighbours, with the value present and with it taken out
+    for &x in &pool {
+        let without: Vec<SingleObjective> = all.iter().copied().filter(|o| o.value() != x.value()).collect();
+        for op in ["contains", "position", "bsearch"] {
+            do_search(r, op, &all, x);
+            do_search(r, op, &without, x);
+        }
+    }
+    // vectors over two adjacent values
+    let lo = if negative_vectors { -m } else { m };
+    if let Some(hi) = ulps(lo, 1) {
+        let dom = [lo, hi];
+        let mut vecs: Vec<Vec<f64>> = Vec::new();
+        for &p in &dom {
+            vecs.push(vec![p]);
+            for &q in &dom {
+                vecs.push(vec![p, q]);
+            }
+        }
+        vecs.retain(|v| v.iter().all(|x| *x != f64::NEG_INFINITY));
+        for u in &vecs {
+            do_m_try_from(r, if rng.gen_bool(0.5) { "vec" } else { "slice" }, u);
+            for v in &vecs {
+                do_m_cmp(r, "partial_cmp", u, v);
+                do_m_cmp(r, "eq", u, v);
+                do_m_cmp(r, MCMP_FORMS.choose(rng).unwrap(), u, v);
+            }
+        }
+    }
+}
+
 pub fn main(args: &Args) -> usize {
     let mut out = Out::create(&args.str("out"));
     match args.mode.as_str() {
@@ -618,6 +843,22 @@ pub fn main(args: &Args) -> usize {
                 let mut g = rng(args.seed(), run);
                 let mut r = Run::new(run, true);
                 random_run(&mut r, &mut g, size);
+                r.flush(&mut out);
+            }
+            // adjacent floats: the fixed magnitudes, then `nb` random bit patterns
+            let mut bases = neighbour_bases();
+            let mut g = rng(args.seed(), 1_000_003);
+            while (bases.len() as u64) < neighbour_bases().len() as u64 + args.num("nb", 4) {
+                let x = f64::from_bits(g.gen::<u64>() & 0x7fff_ffff_ffff_ffff);
+                if x.is_finite() {
+                    bases.push(x);
+                }
+            }
+            for (k, m) in bases.into_iter().enumerate() {
+                let run = runs + 1 + k as u64;
+                let mut g = rng(args.seed(), 2_000_000 + run);
+                let mut r = Run::new(run, true);
+                neighbour_run(&mut r, &mut g, m, k % 2 == 1);
                 r.flush(&mut out);
             }
         }
